@@ -118,6 +118,10 @@ inductive Err where
 abbrev Res := Except Err Val
 abbrev Comp := St → Res × St
 
+def Res.isOk : Res → Bool
+  | .ok _ => true
+  | .error _ => false
+
 /-- allocate a new container object; `written = true` when the code fills it in place afterwards -/
 def mk (k : Kind) (keys : List String) (items : List Val) (written : Bool) : Comp := fun s =>
   (.ok (.node s.next k keys items),
